@@ -794,6 +794,11 @@ pub struct Env {
     /// value of every count variable (by variable name); missing -> `default_count`
     pub counts: BTreeMap<String, Num>,
     pub default_count: Option<Num>,
+    /// render components as real `<b>..</b>` tags (what the `&str` DisplayComponent and the probe's
+    /// view components produce) instead of the evaluator's distinct brackets
+    pub html_tags: bool,
+    /// leptos SSR renders an empty text child as a single space: `<b></b>` comes out as `<b> </b>`
+    pub empty_child_space: bool,
 }
 
 pub fn num_display(ty: Option<NumTy>, n: Num) -> String {
@@ -851,13 +856,19 @@ fn render_into(rs: &[R], env: &Env, count_tys: &BTreeMap<String, (NumTy, Num)>, 
             }
             R::Comp { name, inner } => {
                 // distinct brackets: a component is not the same thing as literal "<b>" text
-                out.push('\u{2039}');
+                let (o, c) = if env.html_tags { ('<', '>') } else { ('\u{2039}', '\u{203a}') };
+                out.push(o);
                 out.push_str(name);
-                out.push('\u{203a}');
+                out.push(c);
+                let before = out.len();
                 render_into(inner, env, count_tys, out)?;
-                out.push_str("\u{2039}/");
+                if env.empty_child_space && out.len() == before {
+                    out.push(' ');
+                }
+                out.push(o);
+                out.push('/');
                 out.push_str(name);
-                out.push('\u{203a}');
+                out.push(c);
             }
             R::Range { count, ty, branches } => {
                 let n = env.count_of(count).ok_or_else(|| RenderErr::NoCount(count.clone()))?;
